@@ -21,6 +21,18 @@ func c05World(r *rand.Rand) (files map[string]string, element, food string, dept
 	nrec := 3 + r.Intn(12) // often > 8 recipes
 	names := gen.Names(r, nrec+8, gen.NameOpts{Slash: true, MaxLen: 6})
 	recipes, basics, unknown := names[:nrec], names[nrec:nrec+4], names[nrec+4:]
+	if r.Intn(3) == 0 {
+		// pairs of different names that a "natural", case-folding or normalising comparison takes for equal (digit
+		// runs that differ by leading zeros, letter case, doubled blanks, composed and decomposed accents): whatever
+		// order a report gives them, it is the same order every time
+		twins := [][2]string{{"vitamin B2", "vitamin B02"}, {"omega3", "omega03"}, {"Zinc", "zinc"}, {"a  b", "a b"}, {"caf\u00e9", "cafe\u0301"}, {"x-1", "x-01"}, {"E100", "E0100"}, {"fat ", "fat"}}
+		p, q := twins[r.Intn(len(twins))], twins[r.Intn(len(twins))]
+		p[0], p[1], q[0], q[1] = strings.TrimSpace(p[0]), strings.TrimSpace(p[1]), strings.TrimSpace(q[0]), strings.TrimSpace(q[1])
+		if p[0] != p[1] && q[0] != q[1] && p != q {
+			basics[1], basics[2] = p[0], p[1]
+			unknown[0], unknown[1] = q[0]+"/u", q[1]+"/u"
+		}
+	}
 	vals := []string{"1", "2", "1", "0.5"}
 	if r.Intn(6) == 0 {
 		// not-a-number and infinities are accepted by the parser: reports must still be deterministic
